@@ -196,6 +196,11 @@ def build_dbn(tpl, complete=True):
     dbn.add_nodes_from([v for v, _ in tpl["vars"]])
     for kind, u, v in tpl["edge_order"]:
         dbn.add_edge((u, 0), (v, 0 if kind == "intra" else 1))
+    have = {tuple(n) for n in dbn.nodes()}
+    missing = [(v, s) for v, _ in tpl["vars"] for s in (0, 1) if (v, s) not in have]
+    if missing:
+        return dbn, {"key": "add_edge:missing-slice-node", "what": f"after adding nodes {[v for v, _ in tpl['vars']]} and edges {tpl['edge_order']} the network has no node {missing} "
+                     "(a variable that is only the source of inter-slice edges exists in slice 0 only), so the template cannot be given its CPDs"}
     skip = set(needs_copy(tpl))
     cpds = []
     for v, sl in tpl["cpd_order"]:
@@ -322,83 +327,114 @@ def _marg_values(phi, node, tpl):
     return vals, names == list(st)
 
 
-def check_inference(case):
+def case_class(tpl, evidence):
+    """the most suspect input class present in the case (the keys of the inference groups are per class, so that a defect
+    of one class can be listed without hiding failures in the healthy core)."""
+    if tclass(tpl) == "cross-inter":
+        return "cross-inter"
+    if evclass(tpl, evidence) == "interface-evidence":
+        return "interface-evidence"
+    if tpl["named"] and evidence:
+        return "named-evidence"
+    return "core"
+
+
+def _prepare(case):
     from pgmpy.inference import DBNInference
 
     tpl = case["tpl"]
-    T = case["T"]
-    evidence = {(v, t): s for v, t, s in case["evidence"]}
-    st = tpl_states(tpl)
     dbn, fail = build_dbn(tpl)
     if fail and not fail["key"].endswith("state-names"):
-        return fail
-    soft = fail
-    tc, ec = tclass(tpl), evclass(tpl, evidence)
+        return None, fail, None
     try:
         inf = DBNInference(dbn)
     except Exception as e:  # noqa
         tag = "no-intra-edge-variable:" if isolated_vars(tpl) else ""
-        return {"key": f"DBNInference.init:{tag}raised:{type(e).__name__}", "what": f"DBNInference(dbn) raised {type(e).__name__}: {str(e)[:200]}"}
+        return None, {"key": f"DBNInference.init:{tag}raised:{type(e).__name__}", "what": f"DBNInference(dbn) raised {type(e).__name__}: {str(e)[:200]}"}, None
+    return inf, None, fail
 
-    def one(mode, variables, qc):
-        nonlocal soft
-        tmax = max([t for _, t in variables] + [t for (_, t) in evidence])
-        desc = f"{mode}({variables}, evidence={case['evidence']})"
-        try:
-            res = getattr(inf, mode)([tuple(v) for v in variables], dict(evidence) if evidence else None)
-        except Exception as e:  # noqa
-            return {"key": f"{mode}:{tc}:{ec}:{qc}:raised:{type(e).__name__}", "what": f"{desc} raised {type(e).__name__}: {str(e)[:200]}"}
-        if not isinstance(res, dict) or {tuple(k) for k in res} != {tuple(v) for v in variables}:
-            return {"key": f"{mode}:{tc}:{ec}:{qc}:keys", "what": f"{desc} returned keys {list(res) if isinstance(res, dict) else type(res)}"}
-        for node in variables:
-            node = tuple(node)
-            if mode == "forward_inference":
-                ev = {k: s for k, s in evidence.items() if k[1] <= node[1]}  # filtering: evidence up to the slice of the variable
-                tt = max([node[1]] + [t for (_, t) in ev])
-            else:
-                ev, tt = evidence, tmax
-            want = spec_posterior(tpl, tt, [node], ev)
-            if want is None:
-                continue
-            phi = [f for k, f in res.items() if tuple(k) == node][0]
-            if [tuple(x) for x in phi.variables] != [node] or int(phi.cardinality[0]) != len(st[node[0]]):
-                return {"key": f"{mode}:{tc}:{ec}:{qc}:scope", "what": f"{desc}: factor for {node} has scope {phi.variables} card {phi.cardinality}"}
-            vals, names_ok = _marg_values(phi, node, tpl)
-            for i, s in enumerate(st[node[0]]):
-                w = float(want[(s,)])
-                if math.isnan(vals[i]) or abs(vals[i] - w) > TOL:
-                    filt = " (filtering: evidence of slices <= %d)" % node[1] if mode == "forward_inference" else ""
-                    return {"key": f"{mode}:{tc}:{ec}:{qc}:values",
-                            "what": f"{desc}: P({node}){filt} = {vals}, unrolled network gives {[str(want[(x,)]) for x in st[node[0]]]} = {[float(want[(x,)]) for x in st[node[0]]]}"}
-            if not names_ok and soft is None:
-                soft = {"key": f"{mode}:result-state-names", "what": f"{desc}: factor for {node} names its states {phi.state_names[phi.variables[0]]}, the model names them {st[node[0]]}"}
-        return None
 
+def _ask(inf, case, mode, variables, label, soft):
+    """one request against the unrolled network. -> failure dict or None; soft: list collecting state-name findings."""
+    tpl, evidence = case["tpl"], {(v, t): s for v, t, s in case["evidence"]}
+    st = tpl_states(tpl)
+    fn = "query" if mode in ("query", "backward_inference") else "forward_inference"
+    tmax = max([t for _, t in variables] + [t for (_, t) in evidence])
+    desc = f"{mode}({variables}, evidence={case['evidence']})"
+    try:
+        res = getattr(inf, mode)([tuple(v) for v in variables], dict(evidence) if evidence else None)
+    except Exception as e:  # noqa
+        return {"key": f"{fn}:{label}:raised:{type(e).__name__}", "what": f"{desc} raised {type(e).__name__}: {str(e)[:200]}"}
+    if not isinstance(res, dict) or {tuple(k) for k in res} != {tuple(v) for v in variables}:
+        return {"key": f"{fn}:{label}:keys", "what": f"{desc} returned keys {list(res) if isinstance(res, dict) else type(res)}"}
+    for node in variables:
+        node = tuple(node)
+        if fn == "forward_inference":
+            ev = {k: s for k, s in evidence.items() if k[1] <= node[1]}  # filtering: evidence up to the slice of the variable
+            tt = max([node[1]] + [t for (_, t) in ev])
+        else:
+            ev, tt = evidence, tmax
+        want = spec_posterior(tpl, tt, [node], ev)
+        if want is None:
+            continue
+        phi = [f for k, f in res.items() if tuple(k) == node][0]
+        if [tuple(x) for x in phi.variables] != [node] or int(phi.cardinality[0]) != len(st[node[0]]):
+            return {"key": f"{fn}:{label}:scope", "what": f"{desc}: factor for {node} has scope {phi.variables} card {phi.cardinality}"}
+        vals, names_ok = _marg_values(phi, node, tpl)
+        for i, s in enumerate(st[node[0]]):
+            w = float(want[(s,)])
+            if math.isnan(vals[i]) or abs(vals[i] - w) > TOL:
+                filt = " (filtering: evidence of slices <= %d)" % node[1] if fn == "forward_inference" else ""
+                return {"key": f"{fn}:{label}:values",
+                        "what": f"{desc}: P({node}){filt} = {vals}, unrolled network gives {[str(want[(x,)]) for x in st[node[0]]]} = {[float(want[(x,)]) for x in st[node[0]]]}"}
+        if not names_ok and not soft:
+            soft.append({"key": f"{fn}:result-state-names", "what": f"{desc}: factor for {node} names its states {phi.state_names[phi.variables[0]]}, the model names them {st[node[0]]}"})
+    return None
+
+
+def check_inference(case):
+    """every (variable, slice) alone, then all variables of one slice together."""
+    inf, fail, soft0 = _prepare(case)
+    if fail:
+        return fail
+    tpl, T = case["tpl"], case["T"]
+    evidence = {(v, t): s for v, t, s in case["evidence"]}
+    label = case_class(tpl, evidence)
+    soft = [soft0] if soft0 else []
     nodes = [(v, t) for t in range(T + 1) for v, _ in tpl["vars"] if (v, t) not in evidence]
-    # 1. single-variable requests, every variable / slice, smoothing (query, backward_inference) and filtering (forward_inference)
     for i, node in enumerate(nodes):
         for mode in (("query", "backward_inference")[i % 2], "forward_inference"):
-            r = one(mode, [node], "single")
+            r = _ask(inf, case, mode, [node], label, soft)
             if r:
                 return r
-    # 2. several variables of one slice
     for t in range(T + 1):
         vs = [n for n in nodes if n[1] == t]
         if len(vs) > 1:
             for mode in ("query", "forward_inference"):
-                r = one(mode, vs[::-1] if t % 2 else vs, "same-slice")
+                r = _ask(inf, case, mode, vs[::-1] if t % 2 else vs, label + ":same-slice", soft)
                 if r:
                     return r
-    # 3. variables of several slices in one request
-    if T >= 1 and len(nodes) > 1:
-        picks = [[n for n in nodes if n[1] in (0, T)][:4], nodes[::2][:4], nodes]
+    return soft[0] if soft else None
+
+
+def check_inference_multi(case):
+    """variables of several slices in one request."""
+    inf, fail, _ = _prepare(case)
+    if fail:
+        return fail
+    tpl, T = case["tpl"], case["T"]
+    evidence = {(v, t): s for v, t, s in case["evidence"]}
+    label = case_class(tpl, evidence)
+    nodes = [(v, t) for t in range(T + 1) for v, _ in tpl["vars"] if (v, t) not in evidence]
+    soft = [True]
+    picks = [[n for n in nodes if n[1] in (0, T)][:4], nodes[::2][:4], nodes]
+    for mode in ("forward_inference", "query"):
         for vs in picks:
             if len({t for _, t in vs}) > 1:
-                for mode in ("query", "forward_inference"):
-                    r = one(mode, vs, "multi-slice")
-                    if r:
-                        return r
-    return soft
+                r = _ask(inf, case, mode, vs, "multi-slice" + ("" if label == "core" else ":" + label), soft)
+                if r:
+                    return r
+    return None
 
 
 # ----------------------------------------------------------------------------- model-level checks
@@ -438,13 +474,19 @@ def check_constant_bn(case):
     """get_constant_bn(t_slice): a BayesianNetwork over '{var}_{time}' exposing the template's CPDs unchanged."""
     tpl = case["tpl"]
     dbn, fail = build_dbn(dict(tpl, explicit=True), complete=False)
+    if fail:
+        return fail
     soft = None
+    deg = {}
+    for a, b in dbn.edges():
+        deg[tuple(a)] = deg[tuple(b)] = 1
+    edgeless = [tuple(n) for n in dbn.nodes() if tuple(n) not in deg]
     for ts in case.get("t_slices", (0, 1)):
         nm = lambda n: f"{n[0]}_{n[1] + ts}"  # noqa
         try:
             bn = dbn.get_constant_bn(t_slice=ts)
         except Exception as e:  # noqa
-            return {"key": f"get_constant_bn:raised:{type(e).__name__}", "what": f"get_constant_bn(t_slice={ts}) raised {type(e).__name__}: {str(e)[:200]}"}
+            return {"key": f"get_constant_bn:{'edgeless-node:' if edgeless else ''}raised:{type(e).__name__}", "what": f"get_constant_bn(t_slice={ts}) raised {type(e).__name__}: {str(e)[:200]}"}
         want_edges = {(nm((u, s)), nm((v, s))) for u, v in tpl["intra"] for s in (0, 1)} | {(nm((u, 0)), nm((v, 1))) for u, v in tpl["inter"]}
         if {tuple(e) for e in bn.edges()} != want_edges:
             return {"key": "get_constant_bn:edges", "what": f"t_slice={ts}: edges {sorted(bn.edges())}, expected {sorted(want_edges)}"}
@@ -528,6 +570,10 @@ def make_template(rng, nvars, n_iface, cross, named, explicit, cards=None, zeros
                 inter.append([u, rng.choice(others)])
     else:
         inter = [[v, v] for v in rng.sample(names, min(n_iface, nvars))]
+    # a variable without any edge would only exist in slice 0 (add_node creates (v,0) only): give it a persistence edge
+    for v in names:
+        if not any(v in e for e in intra) and not any(v in e for e in inter):
+            inter.append([v, v])
     style = style or ("str" if named else "int")
     vars_ = [[v, O.state_names(v, cards[v], style) if named else list(range(cards[v]))] for v in names]
     cpd0, cpd1 = {}, {}
@@ -588,8 +634,17 @@ def _evidence(rng, tpl, T, kind):
 def gen_inference(tier, seed):
     rng = O.mk_rng(seed, "c17inf")
     n = 0
-    reps = 1 if tier == "quick" else 3
-    for rep in range(reps):
+    # the healthy core in depth: persistence edges only, evidence on non-interface variables, default state names
+    # (every second template without evidence also with named states)
+    for k in range(40 if tier == "quick" else 160):
+        nvars = rng.choice((2, 3, 3))
+        evk = ("plain", "plain", "none")[k % 3]
+        tpl = make_template(rng, nvars, rng.choice((1, 2)), False, named=(evk == "none" and k % 2 == 0), explicit=(k % 4 < 3), zeros=(k % 4 == 0),
+                            style=("str", "mixed")[k % 2])
+        T = rng.choice((1, 2, 3, 3))
+        yield {"tpl": tpl, "T": T, "evidence": _evidence(rng, tpl, T, evk)}
+    # all input classes
+    for rep in range(1 if tier == "quick" else 3):
         for nvars in (1, 2, 3):
             for n_iface in (1, 2):
                 if n_iface > nvars:
@@ -601,18 +656,21 @@ def gen_inference(tier, seed):
                         for named in (False, True):
                             n += 1
                             T = (n % 3) + 1
-                            tpl = make_template(rng, nvars, n_iface, cross, named, explicit=(n % 2 == 0), zeros=(n % 5 == 0),
+                            tpl = make_template(rng, nvars, n_iface, cross, named, explicit=(n % 3 != 0), zeros=(n % 5 == 0),
                                                 isolated_ok=(nvars == 1 or n % 7 == 0), style=("str", "mixed")[n % 2])
                             ev = _evidence(rng, tpl, T, evk)
                             if evk != "none" and not ev:
                                 ev = _evidence(rng, tpl, T, "iface")
                             yield {"tpl": tpl, "T": T, "evidence": ev}
-    # the healthy core gets more depth: persistence edges only, default state names, evidence on non-interface variables
-    for k in range(24 if tier == "quick" else 120):
-        nvars = rng.choice((2, 3, 3))
-        tpl = make_template(rng, nvars, rng.choice((1, 2)), False, named=False, explicit=(k % 2 == 0), zeros=(k % 4 == 0))
-        T = rng.choice((1, 2, 3, 3))
-        yield {"tpl": tpl, "T": T, "evidence": _evidence(rng, tpl, T, ("plain", "plain", "none")[k % 3])}
+
+
+def gen_inference_multi(tier, seed):
+    rng = O.mk_rng(seed, "c17multi")
+    for k in range(12 if tier == "quick" else 48):
+        nvars = rng.choice((2, 3))
+        tpl = make_template(rng, nvars, rng.choice((1, 2)), False, named=False, explicit=True)
+        T = rng.choice((1, 2, 3))
+        yield {"tpl": tpl, "T": T, "evidence": _evidence(rng, tpl, T, ("plain", "none")[k % 2])}
 
 
 def gen_models(tier, seed):
@@ -643,7 +701,10 @@ def groups(tier):
               bound="templates with 1-3 variables per slice, cards in {2,3}, 1-2 interface nodes, persistence-only and cross inter-slice edges, "
                     "default and named states, T in 1..3; per template one evidence set (none / non-interface / interface variables, several slices); "
                     "every (variable, slice) asked alone with query|backward_inference (smoothing) and forward_inference (filtering), then all variables "
-                    "of a slice, then variables of several slices in one request; expected values from an independent unroller + exact Fraction elimination"),
+                    "of a slice; keys carry the input class (core / named-evidence / interface-evidence / cross-inter); expected values from an independent unroller + exact Fraction elimination"),
+        Group("inference_multi", gen_inference_multi, check_inference_multi, nontrivial, seed_fanout=2, engine="E3",
+              bound="12 (48) core templates (persistence edges, default states, evidence on non-interface variables or none): requests naming "
+                    "variables of several slices at once, forward_inference and query"),
         Group("initialize_initial_state", gen_models, check_initialize, nontrivial, seed_fanout=1, engine="E3",
               bound="templates with 1-3 variables, cards in {2,3,4}, shuffled parent / edge / CPD insertion orders; every CPD after completion compared "
                     "with the template by named assignment; interface / intra / inter edge accessors; idempotence"),
